@@ -11,6 +11,7 @@ import (
 	"net/mail"
 	"os"
 	"runtime"
+	"runtime/debug"
 	"strconv"
 	"strings"
 	"sync"
@@ -87,6 +88,27 @@ func init() {
 			}
 		}
 		return Obs{"lines": out}
+	})
+	// sql_exec: {"op":"sql_exec","q":"UPDATE users SET enabled = 0 WHERE username = ?","args":["bob"]}
+	// a write to the SHARED database of this scenario — used to put rows into states that no protocol command
+	// produces (a disabled account, a password that was never initialised, a disabled domain / role mailbox)
+	register("sql_exec", func(w *World, op Op) Obs {
+		args := []interface{}{}
+		for _, a := range op.strs("args") {
+			args = append(args, a)
+		}
+		res, err := w.mgr.GetSharedDB().Exec(op.str("q"), args...)
+		if err != nil {
+			return Obs{"error": err.Error()}
+		}
+		n, _ := res.RowsAffected()
+		return Obs{"rows": n}
+	})
+	// max_stack: {"op":"max_stack","mb":64} — runtime/debug.SetMaxStack: an unbounded recursion ends in the
+	// runtime's fatal "stack overflow" (which no recover() catches) after 64 MB instead of after 1 GB
+	register("max_stack", func(w *World, op Op) Obs {
+		old := debug.SetMaxStack(op.num("mb", 64) << 20)
+		return Obs{"old": old}
 	})
 	// mailParse: what net/mail.ParseAddressList + the encoded-word encoding of the display names answer for
 	// a header value (the [mail_parse] parameter of Model/Slicers.v): null = error or empty list
